@@ -186,6 +186,31 @@ pub fn run(root: &Path, job: &Job) -> SchedOut {
         if enabled.is_empty() {
             break;
         }
+        // A thread parked inside batch_write holds the topic's writer mutexes (that is asked
+        // of the engine, not assumed). While they are held, a thread whose next step is to
+        // take them would block in the kernel instead of reaching a point: it is disabled.
+        let holder_parked = (0..n).any(|i| matches!(&g.st[i], St::Waiting(a) if a == "bw.planned" || a == "bw.before_publish"));
+        if holder_parked && w.__verif_writer_locked(topic_name(0)) {
+            let needs_lock = |i: usize| -> bool {
+                match &g.st[i] {
+                    St::Waiting(a) if a == "w.before_lock" || a == "bw.before_lock" || a == "rn.tail_snapshot" => true,
+                    St::Waiting(a) if a == "start" || a == "between_calls" => {
+                        // the next call starts by snapshotting the writer
+                        let done = results.lock().unwrap()[i].len();
+                        matches!(spec.threads[i].get(done), Some(Op::BatchRead { .. }))
+                    }
+                    _ => false,
+                }
+            };
+            let filtered: Vec<usize> = enabled.iter().copied().filter(|i| !needs_lock(*i)).collect();
+            if filtered.is_empty() {
+                out.status = "stuck: every parked thread waits for writer mutexes held by a parked thread".into();
+                drop(g);
+                verif::install_hooks(None);
+                return out;
+            }
+            enabled = filtered;
+        }
         let last_enabled = last.map(|l| enabled.contains(&l)).unwrap_or(false);
         if let Some(l) = last {
             if last_enabled {
